@@ -22,7 +22,7 @@ func init() {
 	Register(&Rule{
 		ID:    "R-OFFSET",
 		Doc:   "every unsafe.Pointer(uintptr(p)+off) in json, proto and internal/runtime_reflect: off is traced backwards through conversions, φ, sums, struct fields of the repository (to every store into the field), parameters (to the arguments at every call site of the VTA call graph), captured variables (to the closure's bindings) and package variables (to their stores); the leaves must be reflect.StructField.Offset, a product with a Size()/Sizeof factor, or a constant; a bare Size() leaf is a violation, any other leaf is undecided",
-		Props: []string{"C01", "C02", "C03"},
+		Props: []string{"C01", "C02", "C03", "C06"},
 		Min:   map[string]int{"C01": 3, "C02": 4, "C03": 2},
 		Run:   runOffset,
 	})
@@ -272,6 +272,24 @@ func (t *offTracer) traceFreeVar(fv *ssa.FreeVar, depth int, byRef bool) {
 	}
 }
 
+// domEdgeOf: the branch edge pred -> succ itself, when pred ends in an If.
+func domEdgeOf(pred, succ *ssa.BasicBlock) []domEdge {
+	if len(pred.Instrs) == 0 {
+		return nil
+	}
+	ifi, ok := pred.Instrs[len(pred.Instrs)-1].(*ssa.If)
+	if !ok {
+		return nil
+	}
+	var out []domEdge
+	for i, s := range pred.Succs {
+		if s == succ && pred.Succs[1-i] != succ {
+			out = append(out, domEdge{ifi, i})
+		}
+	}
+	return out
+}
+
 func runOffset(c *core.Ctx) []core.Obligation {
 	b := newOb(c, "R-OFFSET")
 	tr := newOffTracer(c)
@@ -347,6 +365,103 @@ func runOffset(c *core.Ctx) []core.Obligation {
 			b.addP(props, core.Undecided, key, pos, name+": no source found for the offset")
 		default:
 			b.addP(props, core.Discharged, key, pos, "offset comes from "+strings.Join(ls, " + "))
+		}
+	}
+	// the base of the arithmetic: a pointer that was itself loaded from memory in this function
+	// (the embedded struct pointer of a promoted field) may be nil; adding an offset to nil and
+	// dereferencing the result faults. It must have been tested, or replaced by a fresh
+	// allocation, on every path to the addition.
+	cnt := map[string]int{}
+	for _, s := range sites {
+		var basePtr ssa.Value
+		for _, op := range []ssa.Value{s.add.X, s.add.Y} {
+			if cv, ok := op.(*ssa.Convert); ok && cv.X.Type().String() == "unsafe.Pointer" {
+				basePtr = cv.X
+			}
+		}
+		if basePtr == nil {
+			continue
+		}
+		loaded := false
+		var loads []ssa.Value
+		for _, o := range origins(basePtr) {
+			if ld, ok := o.(*ssa.UnOp); ok && ld.Op == token.MUL && ld.Type().String() == "unsafe.Pointer" {
+				loaded = true
+				loads = append(loads, ld)
+			}
+		}
+		if !loaded {
+			continue
+		}
+		// element i of a slice's backing array is another matter (bounded by len/cap)
+		tr.seen, tr.seenFld, tr.leaves = map[ssa.Value]bool{}, map[string]bool{}, map[string]bool{}
+		tr.trace(s.off, 0)
+		if tr.leaves["scaled"] {
+			continue
+		}
+		name := shortName(s.fn)
+		cnt[name]++
+		key := "offset-base-non-nil:" + name
+		if cnt[name] > 1 {
+			key += fmt.Sprintf("#%d", cnt[name])
+		}
+		props := []string{"C06"}
+		tested := false
+		for _, e := range dominatingEdges(s.add.Block()) {
+			bo, ok := e.ifi.Cond.(*ssa.BinOp)
+			if !ok || !(isNilConst(bo.X) || isNilConst(bo.Y)) {
+				continue
+			}
+			other := bo.X
+			if isNilConst(bo.X) {
+				other = bo.Y
+			}
+			for _, ld := range loads {
+				if other == ld || other == basePtr {
+					if (bo.Op == token.EQL && e.succ == 1) || (bo.Op == token.NEQ && e.succ == 0) {
+						tested = true
+					}
+				}
+			}
+		}
+		// φ(loaded non-nil, fresh allocation): the nil case was replaced
+		if phi, ok := basePtr.(*ssa.Phi); ok && !tested {
+			allOK := true
+			for i, e := range phi.Edges {
+				pred := phi.Block().Preds[i]
+				isLoad := false
+				for _, ld := range loads {
+					if e == ld {
+						isLoad = true
+					}
+				}
+				if !isLoad {
+					continue // a fresh value
+				}
+				okEdge := false
+				for _, de := range append(dominatingEdges(pred), domEdgeOf(pred, phi.Block())...) {
+					bo, isB := de.ifi.Cond.(*ssa.BinOp)
+					if !isB || !(isNilConst(bo.X) || isNilConst(bo.Y)) {
+						continue
+					}
+					other := bo.X
+					if isNilConst(bo.X) {
+						other = bo.Y
+					}
+					if other == e && ((bo.Op == token.EQL && de.succ == 1) || (bo.Op == token.NEQ && de.succ == 0)) {
+						okEdge = true
+					}
+				}
+				if !okEdge {
+					allOK = false
+				}
+			}
+			tested = allOK
+		}
+		if tested {
+			b.addP(props, core.Discharged, key, c.InstrPos(s.add), "the loaded pointer is tested (or replaced) before the offset is added")
+		} else {
+			b.addP(props, core.Violation, key, c.InstrPos(s.add), name+" adds an offset to a pointer it has just loaded from memory without testing it for nil: for a nil embedded struct pointer the result is a small invalid address, and the access through it faults (a nil-dereference panic, or an unrecoverable fault for a large offset)")
 		}
 	}
 	if len(sites) == 0 {
